@@ -17,7 +17,7 @@ RULE = ('grammar-directed random programs (profiles sequential/deep: 1-5 functio
         'positions, global shadowing, by-reference arrays, recursion, entry-point arguments), each run at word sizes '
         '2,3,4 (8 on a sample) x generous stack + 2 tight stacks; a case is one (program, args); non-trivial = the '
         'model executed >= 1 user call and the committed output has >= 20 bytes; distinct by hash of (source, args); plus the enumerated idiom grids of gen/idioms.py '
-        '(204 scoping/shadowing programs, 96 left-operand x right-operand programs, 448 + 51 value-capture programs, 48 narrowing programs, 8 fresh-literal programs, 15 expression-statement and 9 tail-call programs, neighbouring globals of every type, 20-element bit-vectors, 12 programs of coinciding constant tables, 319 entry-point signatures), each with 2-3 argument vectors')
+        '(204 scoping/shadowing programs, 96 left-operand x right-operand programs, 448 + 51 value-capture programs, 48 narrowing programs, 8 fresh-literal programs, 15 expression-statement and 9 tail-call programs, neighbouring globals of every type, 20-element bit-vectors, overloads by arity in every declaration order, 12 programs of coinciding constant tables, 319 entry-point signatures), each with 2-3 argument vectors')
 ASSUMPTIONS = common.ISA_ASSUMPTIONS
 REQUIRED_HIDC_FUNCTIONS = ['codegen/generator:CodeGen.eval_expr', 'codegen/generator:CodeGen.eval_func_call', 'codegen/generator:CodeGen.lookup_var']     # M-COV: deciding code never entered => inconclusive
 MIN_NONTRIVIAL = {'quick': 100, 'thorough': 1000}
@@ -86,7 +86,7 @@ def check_program(res, prog, args, rng, tier, tag):
 def check_idiom(res, prog, argsets, tier, tag, k):
     """generous stack only; quick tier pairs argument vectors with word sizes round-robin, thorough runs the product"""
     src = A.render(prog)
-    words = common.WORDS_ALL
+    words = tuple(common.WORDS_ALL) + (8,)
     if tier == 'quick':
         pairs = [(argsets[(k + j) % len(argsets)], words[j % len(words)]) for j in range(max(len(argsets), len(words)))]
     else:
@@ -131,7 +131,7 @@ def run_shard(spec):
                              (idioms.capture_scalar_programs, [['1']]), (idioms.narrowing_programs, idioms.NARROW_ARGS),
                              (idioms.fresh_literal_programs, idioms.FRESH_ARGS), (idioms.exprstmt_programs, idioms.EXPRSTMT_ARGS),
                              (idioms.tailcall_programs, idioms.TAILCALL_ARGS), (idioms.global_neighbour_programs, idioms.NEIGHBOUR_ARGS),
-                             (idioms.bitvector_programs, idioms.BITVECTOR_ARGS)):
+                             (idioms.bitvector_programs, idioms.BITVECTOR_ARGS), (idioms.overload_arity_programs, [['7'], ['300']])):
             for tag, prog in gen():
                 k += 1
                 if k % spec['parts'] == spec['part']:
